@@ -823,3 +823,92 @@ func mgrTerm(nm *vh.Names, ops []Op, obs []MObs, noCB bool) string {
 	}
 	return "CMgr " + vh.Bool(!noCB) + " " + vh.List(parts)
 }
+
+// ---------------------------------------------------------------------------
+// sender side of Subscribe: every notification the cache feeds to the
+// subscribe server is first post-processed here, under guard, exactly as the
+// per-RPC sender goroutine does with each item of a subscriber's queue
+// (MakeSubscribeResponse, isTargetDelete), and only then relayed to
+// Server.Update.  (The sender goroutine itself cannot be guarded.)
+
+// StItem is one fed notification and what the post-processing did with it.
+type StItem struct {
+	N     *Noti  `json:"n"`
+	Dup   uint32 `json:"dup"`
+	Res   string `json:"res"`
+	Gone  bool   `json:"gone"`
+	Panic string `json:"panic,omitempty"`
+}
+
+func runStream(targets []string, ops []Op) ([]Op, []StItem) {
+	metadata.UnregisterServerNameMetadata()
+	for _, typ := range []latency.StatType{latency.Avg, latency.Max, latency.Min} {
+		metadata.UnregisterIntValue(latency.MetadataName(latWindow, typ))
+	}
+	now := int64(1000)
+	cache.Now = func() time.Time { return time.Unix(0, now) }
+	latency.Now = cache.Now
+	c := cache.New(targets)
+	srv, _ := subscribe.NewServer(c)
+	var items []StItem
+	k := uint32(0)
+	c.SetClient(func(l *ctree.Leaf) {
+		n, ok := l.Value().(*pb.Notification)
+		if !ok {
+			return
+		}
+		k++
+		it := StItem{N: notiAbs(n), Dup: k % 2}
+		var err error
+		it.Res, it.Panic = guard(func() {
+			_, err = srv.MakeSubscribeResponse(l.Value(), it.Dup)
+			it.Gone = subscribe.VerifC12IsTargetDelete(l)
+		})
+		if it.Res == "ok" && err != nil {
+			it.Res = "err"
+		}
+		if !cleanNoti(it.N) {
+			return
+		}
+		items = append(items, it)
+		if it.Res == "ok" {
+			guard(func() { srv.Update(l) })
+		}
+	})
+	var seen []Op
+	for _, op := range ops {
+		now += 10
+		switch op.K {
+		case "msg":
+			if op.N == nil {
+				continue
+			}
+			m := &pb.Notification{}
+			wire(notiPB(op.N), m)
+			seen = append(seen, Op{K: "msg", N: notiAbs(m)})
+			guard(func() { c.GnmiUpdate(m) })
+		case "refresh":
+			seen = append(seen, op)
+			guard(func() { c.UpdateMetadata() })
+		case "remove":
+			seen = append(seen, op)
+			guard(func() { c.Remove(op.T) })
+		case "reset":
+			seen = append(seen, op)
+			guard(func() { c.Reset(op.T) })
+		}
+	}
+	return seen, items
+}
+
+func streamTerm(nm *vh.Names, items []StItem) string {
+	parts := make([]string, len(items))
+	for i, it := range items {
+		res := it.Res
+		if res == "hang" {
+			res = "panic"
+		}
+		parts[i] = fmt.Sprintf("(%s, %s, (%s, %s))", gNotif(nm, it.N), gN(uint64(it.Dup)), gOclass(res), vh.Bool(it.Gone))
+	}
+	return "CStream " + vh.List(parts)
+}
